@@ -7,7 +7,7 @@ claims = json.load(open(f'{V}/tools/claims.json'))
 env = "GOFLAGS=-mod=mod GOPROXY=off GOSUMDB=off GOTOOLCHAIN=local GOWORK=off"
 m = {
  "version": 1,
- "setup_cmd": f"cd /verif/checker && {env} go build -o /verif/bin/yfcheck ./cmd/yfcheck && {env} go build -o /verif/bin/alpharename ./cmd/alpharename",
+ "setup_cmd": f"cd /verif/checker && {env} go build -o /verif/bin/yfcheck ./cmd/yfcheck && {env} go build -o /verif/bin/alpharename ./cmd/alpharename && {env} go build -o /verif/bin/synrewrite ./cmd/synrewrite",
  "hooks": {"guard": "verif", "enable": "none needed: static analysis reads /repo's source as it is; there are no hook commits", 
            "baseline_off_cmd": "cd /repo && GOFLAGS=-mod=mod GOPROXY=off go test -vet=off -count=1 -timeout 25m ./...", "source_commits": [], "add_only": True},
  "engines": [{"name": "yfcheck", "path": "/verif/checker", "serves_properties": sorted(claims.keys()),
